@@ -241,6 +241,7 @@ class Model:
         self._expand_classifiers()
 
     def _expand_classifiers(self) -> None:
+        from .expand import split_conditional_rebind_return
         from .expand import expand_function, split_conditional_returns, fold_attribute_aliases, generator_to_genexp, merge_isinstance_chains, inline_import_helpers, spread_kwargs_dicts, inline_method_aliases, loops_to_comprehensions, merge_boolean_returns
         for f in list(self.functions.values()):
             fn = f.node
@@ -251,6 +252,8 @@ class Model:
             if f.module.name in ('pane.converters', 'pane.classes'):
                 na += split_conditional_returns(fn)
             na += merge_boolean_returns(fn)
+            if f.module.name in ('pane.field', 'pane.util', 'pane.io', 'pane.annotations'):
+                na += split_conditional_rebind_return(fn)
             na += spread_kwargs_dicts(fn)
             if not f.module.name.startswith('pane.converters') and not f.module.name.startswith('pane.errors'):
                 na += generator_to_genexp(fn)
